@@ -1405,30 +1405,39 @@ def setup(ctx):
 def run(ctx):
     setup(ctx)
     ctx.rule = ("cases = scripted histories of the real RepeatingEngine under the real CreateMonitor loop: configuration "
-                "(repeatRetries None/0/1/2/3/5, kill delay, no producers, non-repeating producer, output before run()) "
+                "(repeatRetries None/0/1/2/3/5, kill delay, a LIST of 0-6 producer instances - each in the observer's "
+                "stage or an earlier one, repeating or not, several entries for one component, with or without output "
+                "before run() - read by the real Engine.canConsume and the real Job.producersHaveOutputSinceDate) "
                 "x 3..21 polls with task outcomes ok/fail/generator-raises and environment events (producers finished, "
-                "new output, external kill, kill-delay timer, >20 s wait) placed at 6 interleaving points of each poll; "
+                "new output of one given producer (staggered producers: each starts writing at its own moment or never), "
+                "external kill, kill-delay timer, >20 s wait) placed at 6 interleaving points of each poll; "
                 "direct cases: the harness calls notify_all_producers_finished; composed cases: generated workflows "
                 "(1-3 stages, names re-used across stages, observer with 0-5 references incl. several to one producer "
                 "and to earlier stages in any position, other components) whose real ComponentStates deliver the "
                 "notification through the stageIn subscription while components are finished (FINISHED / FAILED / "
-                "SHUTDOWN) in generated orders before stage-in and at the interleaving points, engines exit and "
-                "restart without a finish, some producers never finish; "
+                "SHUTDOWN) in generated orders before stage-in and at the interleaving points, producer engines exit "
+                "with a restartable reason, are restarted, write their real final output and exit for good (their "
+                "fake engines have the observable surface of the real Engine: notifyFinished / stateUpdates fire on "
+                "every task exit), some producers never finish; an exception escaping from the real code while it is "
+                "driven is an oracle failure (real-code-raises-<where>-<Exception>); "
                 "non-trivial = the producers-finished notification (resp. the finish of a component) occurs, at least "
                 "one task is launched and at least one event lands inside a poll (s1-s4); distinct by canonical JSON "
                 "of the case.")
     ctx.assumptions = [
         "producers write no output after the producers-finished notification (generator never schedules it: "
-        "composed cases have output only while some referenced producer is not finished)",
+        "in composed cases a producer writes only before its own finish)",
+        "which producers count for 'output it can consume': those of the observer's own stage (Engine.canConsume: "
+        "'Different Stage: Always True' - producers of earlier stages are over, what they left is all there is)",
         "ComponentState.stageIn is called once per component, before run() (Controller.comp_staged_in); components of "
         "earlier stages are finished before a component is staged in",
         "time is logical: the fake clock advances 1 ms per datetime.now() of engine.py; '>20 s since last launch' "
         "only through the scripted 'adv' event; schedule_next_instance is called but its timing decision is "
-        "replaced by the script",
+        "replaced by the script; canConsume is driven with delay=0 only (the only call RepeatingEngine makes)",
         "a stop caused by the configured kill delay is treated like a cancellation from outside for the "
         "'final output observed' clause (it is a forced stop by configuration)",
     ]
-    ctx.trusted.append("C13: stub Job/Task of the engine, fake clock, synchronous stand-in for the monitor thread and rx "
+    ctx.trusted.append("C13: stub Job/Task of the engine (producer instances with stub working directories: output / "
+                       "outputSinceDate / outputBeforeDate from the harness's record of the out events), fake clock, synchronous stand-in for the monitor thread and rx "
                        "schedulers (harness/c13.py); composed cases: stand-in for the Controller finishing components "
                        "(ComponentState.finish on real ComponentStates of real Jobs), fake engines of the other "
                        "components and trampoline scheduler of harness/detsim.py, stageIn(stageData=False); restart "
